@@ -107,8 +107,9 @@ struct TapLeaf : public TapNode {
     }
 };
 
+// an exception that nothing below handles (e.g. an inline function such as int() / jacobi() given data it cannot convert) is an input error, not a reason to abort
 int main(int argc, char* const* argv)
-{
+try {
     ECC_Start();
 
     pipe_in = !isatty(fileno(stdin)) || std::getenv("DEBUG_SET_PIPE_IN");
@@ -502,6 +503,9 @@ int main(int argc, char* const* argv)
     }
 
     ECC_Stop();
+} catch (const std::exception& ex) {
+    fprintf(stderr, "error: %s\n", ex.what());
+    return 1;
 }
 
 static void GetRandBytes(unsigned char* buf, int num)
